@@ -601,6 +601,15 @@ class IteratorQueue(IterableQueue[_ValueT]):
 
   def get_nowait(self) -> _ValueT:
     """Gets an element from the queue, raises Empty immediately if empty."""
+    result = self._get_nowait()
+    # A slot was freed: wakes up an enqueuer blocked on a full queue, as get()
+    # does. Not done while holding the dequeue lock (see _release_and_notify).
+    with self._enqueue_lock:
+      self._enqueue_lock.notify()
+    return result
+
+  def _get_nowait(self) -> _ValueT:
+    """Dequeues without notifying the enqueuers, get() and get_batch() do."""
     # Detecting the end of the stream notifies the dequeue condition: it has to
     # be held also when this is called directly, not only from get(). Same
     # lock order as get() and get_batch(): dequeue, then states.
@@ -650,7 +659,7 @@ class IteratorQueue(IterableQueue[_ValueT]):
     with self._dequeue_lock:
       while not max_batch_size or len(result) < max_batch_size:
         try:
-          result.append(self.get_nowait())
+          result.append(self._get_nowait())
           logging.debug('chainable: %s', 'dequeued one')
         except (queue.Empty, asyncio.QueueEmpty) as e:
           if e is self._exception:
@@ -698,7 +707,7 @@ class IteratorQueue(IterableQueue[_ValueT]):
     with self._dequeue_lock:
       while True:
         try:
-          value = self.get_nowait()
+          value = self._get_nowait()
           _release_and_notify(self._dequeue_lock, notify=self._enqueue_lock)
           logging.debug(
               'chainable: %s', f'"{self.name}" dequeued a {type(value)}'
@@ -718,6 +727,14 @@ class IteratorQueue(IterableQueue[_ValueT]):
 
   def put_nowait(self, value: _ValueT) -> None:
     """Puts a value to the queue, raieses if queue is full immediately."""
+    self._put_nowait(value)
+    # An element was added: wakes up a dequeuer blocked on an empty queue, as
+    # put() does. Not done while holding the enqueue lock.
+    with self._dequeue_lock:
+      self._dequeue_lock.notify()
+
+  def _put_nowait(self, value: _ValueT) -> None:
+    """Enqueues without notifying the dequeuers, put() does."""
     # When the queue is full, this will raise queue.Full or asyncio.QueueFull.
     self._queue.put_nowait(value)
     with self._states_lock:
@@ -731,7 +748,7 @@ class IteratorQueue(IterableQueue[_ValueT]):
     with self._enqueue_lock:
       while not self.enqueue_done:
         try:
-          self.put_nowait(value)
+          self._put_nowait(value)
           _release_and_notify(self._enqueue_lock, notify=self._dequeue_lock)
           return
         except (queue.Full, asyncio.QueueFull) as e:
